@@ -1,5 +1,7 @@
 (* Kit/GenTypes.v -- small enumerations shared by the generated files and the models *)
 Inductive expansion := ExpRepeat | ExpTile.
+(* how set_loss_weights of a system loss expands one weight field *)
+Inductive wexp := WUnset | WUseDict | WZerosEquations | WZerosUnknowns | WConstEquations | WConstUnknowns | WErr.
 (* comparison used by the improvement test of ValidationLoss *)
 Inductive cmpop := QLt | QLe | QGt | QGe.
 (* where DataGeneratorParameter takes the samples of one key from *)
